@@ -30,11 +30,27 @@ pub fn check_roundtrip(text: &[char], labels: &[u8], tok_tags: &[Vec<Option<Stri
                 s.tags_mut()[(e - 1) * n_tags + j] = tg.clone().map(|x| x.into());
             }
         }
-        tokenized_of(&s)
+        let owned = tokenized_of(&s);
+        // the same sentence with BORROWED tag strings (what fill_tags and `"..".into()` store)
+        let mut s2 = Sentence::from_raw(t.clone()).expect("from_raw");
+        for (b, &l) in s2.boundaries_mut().iter_mut().zip(labels) {
+            *b = label(l);
+        }
+        s2.reset_tags(n_tags);
+        for (&(_, e), ts) in toks.iter().zip(tok_tags) {
+            for (j, tg) in ts.iter().enumerate() {
+                s2.tags_mut()[(e - 1) * n_tags + j] = tg.as_deref().map(std::borrow::Cow::Borrowed);
+            }
+        }
+        let borrowed = tokenized_of(&s2);
+        if borrowed != owned {
+            return Err(format!("borrowed tag strings are written as {borrowed:?}, owned ones as {owned:?}"));
+        }
+        owned
     });
     let w = match written {
         Err(p) => return Some(("setup-panic".into(), p)),
-        Ok(Err(p)) => return Some(("write-panic".into(), format!("write_tokenized_text panicked / invalid UTF-8: {p}"))),
+        Ok(Err(p)) => return Some(("write-panic".into(), format!("write_tokenized_text failed (panic, invalid UTF-8 or ownership-dependent output): {p}"))),
         Ok(Ok(w)) => w,
     };
     for route in 0..3u8 {
